@@ -370,6 +370,8 @@ def mutants(mb):
     mb.add_text("mutate-input-sort", M, "        elt_errors: ErrorDict = {}\n        values: set = set()", "        elt_errors: ErrorDict = {}\n        data.sort(key=repr)\n        values: set = set()", "C03.R3", "SetMethod")
     mb.add_text("mutate-alias-store", M, "        elt_errors: Optional[ErrorDict] = None\n        values: list = [None] * len(data)", "        elt_errors: Optional[ErrorDict] = None\n        values: list = data", "C03.R3", "ListMethod")
     mb.add_text("constructor-adopts-dict", M, "        obj_dict: dict = obj.__dict__\n        obj_dict.update(fields)", "        obj_dict: dict = fields\n        obj.__dict__ = obj_dict", "C03.R3", "FieldsConstructor")
+    mb.add_text("lookup-by-exception", M, "        if self.alias not in data:\n            raise ValidationError([], {self.alias: ValidationError(self.missing)})\n        try:\n            method: DeserializationMethod = self.mapping[data[self.alias]]\n        except (TypeError, KeyError):",
+                "        try:\n            value = data[self.alias]\n        except KeyError:\n            raise ValidationError([], {self.alias: ValidationError(self.missing)})\n        try:\n            method: DeserializationMethod = self.mapping[value]\n        except (TypeError, KeyError):", "C03.R1", "DiscriminatorMethod")
     # negatives
     mb.add_text("neg-guard-else-form", M, "        if not isinstance(data, str):\n            raise bad_type(data, str)\n        return data", "        if isinstance(data, str):\n            return data\n        else:\n            raise bad_type(data, str)", negative=True)
     mb.add_text("neg-broader-handler", M, "                    except (KeyError, TypeError):\n                        pass", "                    except (LookupError, TypeError):\n                        pass", negative=True)
